@@ -20,7 +20,8 @@ from . import _simcases as S
 RULE = (
     "case = one undriven run (irregular/smoothed/holed meshes, unbiased terminals left unpinned, gamma in {0,1e-4,1e-3,1e-2,0.1,1,10}, u in "
     "{1,5.79}, adaptive on/off, screening on/off) with dt_max drawn as a fraction (0.2..0.9) of the mesh's explicit stability "
-    "bound, or with the default dt_max above the bound; non-trivial = >= 30 steps checked; distinct = distinct spec"
+    "bound, or with the default dt_max above the bound; fixed-step runs use dt_init = dt_max/2 (the step must stay); histories: the undriven unpinned run on a "
+    "Device that was first solved driven with pinned terminals, and on one SolverOptions object first used with adaptive=False; non-trivial = >= 30 steps checked; distinct = distinct spec"
 )
 REQUIRED_COUNTERS = ["steps_checked", "stable_regime_runs", "stable_regime_steps"]
 CASE_TIMEOUT = {"quick": 600, "thorough": 1500}
@@ -44,6 +45,17 @@ def gen_cases(tier, seed):
             o.update(include_screening=True, screening_tolerance=1e-3, max_iterations_per_step=200)
         cases.append({"device": dev, "options": o, "drive": {}, "regime": regime, "frac": float(rng.uniform(0.2, 0.9)), "steps": 150 if not scr else 40,
                       "cost": 20 if scr else 6})
+    nh = 4 if tier == "quick" else 24
+    for k in range(nh):
+        # histories: the undriven run is not the first thing that happens to the Device / SolverOptions object
+        hist = ["after_pinned_run", "options_reused"][k % 2]
+        nt = [2, 3][k % 2] if hist == "after_pinned_run" else int([0, 2][(k // 2) % 2])
+        dev = zoo.gen_device(rng, n_terminals=nt, n_holes=0, probes=0, size="small", film_kind="box" if nt else None, smooth=int(rng.choice([0, 10])),
+                             gamma=float([10.0, 1.0, 0.0][k % 3]))
+        o = dict(adaptive=True, dt_init=1e-4, save_every=20, field_units="mT", current_units="uA", output="file",
+                 terminal_psi="none" if nt else 0.0, adaptive_window=int(rng.choice([2, 5, 10])))
+        cases.append({"device": dev, "options": o, "drive": {}, "regime": "stable", "frac": float(rng.uniform(0.3, 0.9)), "steps": 120, "history": hist,
+                      "seed": int(rng.integers(1 << 30)), "cost": 8})
     return cases
 
 
@@ -65,16 +77,59 @@ def run_case(spec):
         o["dt_max"] = max(0.1, 3 * dt_star)
     o["dt_init"] = min(o["dt_init"], o["dt_max"] / 4)
     if not o["adaptive"]:
-        o["dt_init"] = o["dt_max"]
-    o["solve_time"] = spec["steps"] * o["dt_max"] * (0.7 if o["adaptive"] else 1.0)
+        # a fixed step below the configured maximum: it must stay where it is
+        o["dt_init"] = o["dt_max"] * (1.0 if spec.get("history") == "options_reused" else 0.5)
+    o["solve_time"] = spec["steps"] * (o["dt_max"] if o["adaptive"] else o["dt_init"]) * (0.7 if o["adaptive"] else 1.0)
     sp = dict(spec)
     sp["options"] = o
     mon = simmon.StationaryMonitor(dt_star)
-    rr = sim.run_sim(sp, [mon, simmon.Sanitizer()], device=dev)
+    run_kwargs = {}
+    hist = spec.get("history")
+    Vh = []
+    if hist == "after_pinned_run" and spec["device"]["terminals"]:
+        # the same Device object was first used for a driven run with pinned terminals
+        import copy
+
+        from . import _simcases as S2
+
+        pre = copy.deepcopy(sp)
+        pre["options"].update(terminal_psi=0.0, adaptive=True, solve_time=20 * o["dt_max"], dt_init=min(1e-3, o["dt_max"] / 4))
+        rng = np.random.default_rng(spec.get("seed", 0))
+        pre["drive"] = {"A": S2.field_spec(rng, spec["device"], pre["options"], "uniform", b=0.2), "currents": S2.current_spec(rng, spec["device"], pre["options"], "const", strength=0.1)}
+        r0 = sim.run_sim(pre, [], device=dev)
+        if r0.refused or r0.exception is not None:
+            return {"violations": [], "counters": {"refused_mesh": 1}, "classes": ["refused"], "nontrivial": False}
+        r0.cleanup()
+    elif hist == "options_reused":
+        # ONE SolverOptions object: first a fixed-step run, then the user switches adaptivity on and runs again
+        import dataclasses
+
+        oo = dict(o)
+        oo["adaptive"] = False
+        oo["dt_init"] = min(1e-4, o["dt_max"] / 4)
+        oo["solve_time"] = 10 * oo["dt_init"]
+        opts = sim.build_options(oo, output_file=None)
+        before = dataclasses.asdict(opts)
+        r0 = sim.run_sim(dict(sp, options=oo), [], device=dev, options_obj=opts)
+        if r0.refused or r0.exception is not None:
+            return {"violations": [], "counters": {"refused_mesh": 1}, "classes": ["refused"], "nontrivial": False}
+        r0.cleanup()
+        after = dataclasses.asdict(opts)
+        changed = [k for k in before if k not in ("output_file", "progress_interval", "pause_on_interrupt") and before[k] != after[k]]
+        if changed:
+            Vh.append({"kind": "solve_changes_callers_options", "mechanism": "solve_changes_callers_options", "detail": {"fields": changed, "before": {k: before[k] for k in changed}, "after": {k: after[k] for k in changed}}})
+        opts.adaptive = True
+        opts.solve_time = o["solve_time"]
+        o["adaptive"] = True
+        o["dt_init"] = oo["dt_init"]
+        run_kwargs["options_obj"] = opts
+    rr = sim.run_sim(sp, [mon, simmon.Sanitizer()], device=dev, **run_kwargs)
     if rr.refused:
         return {"violations": [], "counters": {"refused_mesh": 1}, "classes": ["refused"], "nontrivial": False}
-    V = []
+    V = list(Vh)
     C = dict(mon.C)
+    if hist:
+        C["history_runs"] = 1
     exc = rr.exception
     if exc is not None and spec["regime"] == "stable" and isinstance(exc, RuntimeError) and "converge" in str(exc):
         # nothing drives this run and the step is inside the stability bound: giving up is not stationarity
@@ -88,6 +143,11 @@ def run_case(spec):
         C["stable_regime_steps"] = mon.C.get("steps_checked", 0)
         if fd is not None:
             V.append({"kind": "uniform_state_not_stationary", "mechanism": "uniform_state_not_stationary", "detail": fd})
+        if not o["adaptive"] and mon.dts:
+            C["fixed_step_checks"] = 1
+            if any(d != o["dt_init"] for d in mon.dts):
+                j = next(i for i, d in enumerate(mon.dts) if d != o["dt_init"])
+                V.append({"kind": "fixed_step_changed", "mechanism": "fixed_step_changed", "detail": {"step": j, "dt": mon.dts[j], "dt_init": o["dt_init"], "dt_max": o["dt_max"]}})
         if o["adaptive"] and mon.dts:
             C["dt_growth_checks"] = 1
             # the step must grow to dt_max and stay there
@@ -103,7 +163,7 @@ def run_case(spec):
             V.append({"kind": "uniform_state_drifts_above_stability_bound", "mechanism": mech, "detail": {**fd, "max_dev": mon.max_dev, "dt_max": o["dt_max"]}})
     rr.cleanup()
     return {"violations": V, "counters": C, "worst": {"max_abs_psi_minus_1_over_1e-12": mon.max_dev / 1e-12 if spec["regime"] == "stable" else 0.0},
-            "classes": ["regime=" + spec["regime"], "adaptive=" + str(o["adaptive"]), "screening=" + str(bool(o.get("include_screening"))),
+            "classes": ["regime=" + spec["regime"], "history=" + str(spec.get("history")), "adaptive=" + str(o["adaptive"]), "screening=" + str(bool(o.get("include_screening"))),
                         f"terminals={len(spec['device']['terminals'])}", f"holes={len(spec['device']['holes'])}", f"gamma={gamma}", f"u={u}",
                         f"smooth={spec['device']['mesh']['smooth']}"],
             "nontrivial": mon.C.get("steps_checked", 0) >= 30,
